@@ -573,6 +573,26 @@ pub fn plan<'a>(ctx: &'a Ctx, rng: &mut Rng, tier: Tier) -> Plan<'a> {
             let flags = gen::flag_rows(rng, &[0, 2, 4, 5, 6, 7, 8, 9, 10, 11, 12, 13]);
             let mut cases = cross_flags(rng, &pools.all(), &flags, 3);
             cases.extend(deep_nested(&[0, mask(&[BIT_VERB]), mask(&[BIT_ESC]), mask(&[BIT_CAP])]));
+            // test cases that contain a whole SGR sequence as literal text, shaped so that the minimised expression differs from the
+            // plain alternation: with both anchors off the self-check compiles the coloured candidate with its colour codes removed, and a
+            // stripping regex that also removes (part of) the literal text makes it take a fall-back only when colours are on
+            for sgr in ["\u{1b}[0m", "\u{1b}[1;31m", "\u{1b}[104;37m", "\u{1b}[0", "\u{1b}[1;3m", "\u{1b}\\[0m"] {
+                let shapes: Vec<Vec<String>> = vec![
+                    vec![format!("a{}b", sgr), format!("a{}c", sgr)],
+                    vec![sgr.to_string(), format!("{}x", sgr)],
+                    vec![format!("x{}y", sgr), format!("x{}z", sgr), "w".to_string()],
+                    vec![format!("{}{}", sgr, sgr), sgr.to_string()],
+                    vec![format!("({}", sgr), format!("){}", sgr)],
+                    vec![format!("{}1", sgr), format!("{}2", sgr), format!("{}3", sgr)],
+                ];
+                for sh in shapes {
+                    for fl in [0u32, mask(&[BIT_NO_START, BIT_NO_END]), mask(&[BIT_NO_START]), mask(&[BIT_NO_END]), mask(&[BIT_VERB, BIT_NO_START, BIT_NO_END]),
+                        mask(&[BIT_CAP, BIT_NO_START, BIT_NO_END]), mask(&[BIT_ESC, BIT_NO_START, BIT_NO_END]), mask(&[BIT_REP, BIT_NO_START, BIT_NO_END]),
+                        mask(&[BIT_DIGIT, BIT_NO_START, BIT_NO_END]), mask(&[BIT_VERB])] {
+                        cases.push(Case { tcs: sh.clone(), cfg: Cfg::new(fl) });
+                    }
+                }
+            }
             for c in cases.iter_mut() {
                 c.cfg = c.cfg.with(BIT_COLOR);
             }
